@@ -34,6 +34,11 @@ class FileResolver:
         self._exclude_spec: pathspec.PathSpec = pathspec.PathSpec.from_lines(
             "gitignore", config.effective_exclude
         )
+        # Exclude patterns without a path (no slash except a trailing one), for matching names.
+        self._exclude_name_spec: pathspec.PathSpec = pathspec.PathSpec.from_lines(
+            "gitignore",
+            [p for p in config.effective_exclude if "/" not in p.lstrip("!").rstrip("/")],
+        )
         self._include_spec: pathspec.PathSpec = pathspec.PathSpec.from_lines(
             "gitignore", config.effective_include
         )
@@ -88,10 +93,16 @@ class FileResolver:
             rel = path.name
             if self._exclude_spec.match_file(rel):
                 return False
-            # Check parent directory components (only the path's own parts, not up to /)
-            for part in path.parts[:-1]:
-                if self._exclude_spec.match_file(part + "/"):
+            # Check parent directory components (only the path's own parts, not up to /):
+            # names against the plain patterns, and for a relative path also its prefixes
+            # against the whole spec (anchored patterns).
+            parts = path.parts[:-1]
+            for i, part in enumerate(parts):
+                if self._exclude_name_spec.match_file(part + "/"):
                     return False
+                if not path.is_absolute() and part not in (".", ".."):
+                    if self._exclude_spec.match_file("/".join(parts[: i + 1]) + "/"):
+                        return False
             # Check the tool ignore file (e.g. `.flowmarkignore`) that applies to the file
             tool_ignore = self._get_tool_ignore(path.parent)
             if tool_ignore:
@@ -160,7 +171,9 @@ class FileResolver:
         dir_with_slash = dirname + "/"
         rel_with_slash = str(rel_path) + "/"
 
-        if self._exclude_spec.match_file(dir_with_slash):
+        # Plain `name/` patterns match the directory name at any depth; anchored ones
+        # (`/name/`, `a/b/`) match only the path from the walk root, not every `name`.
+        if self._exclude_name_spec.match_file(dir_with_slash):
             return True
         if self._exclude_spec.match_file(rel_with_slash):
             return True
